@@ -4,6 +4,8 @@
    Case line:  <op> <i> <j> <rc> <N1> <D1> <w1> <N2> <D2> <w2> <args...>
    i j rc are the harness' compile-time table indices (ignored here); N/D are the ratio template
    arguments as written (mk_dty normalises them like ratio<>::num/den), w the rep widths. *)
+(* the UBSan variant of the harness (trap mode) turns undefined behaviour into SIGILL = "crash 4" *)
+let ub_leg = match Sys.getenv_opt "C12_UB_LEG" with Some _ -> "crash 4" | None -> "ub"
 let tok_of = function
   | Val v -> str_of_z v
   | Ub _ -> "ub"
@@ -16,17 +18,13 @@ let tokb_of = function
   | Fuel -> "fuel"
 let leg1 = function
   | Val v -> join [ "ok"; str_of_z v ]
-  | Ub _ -> "ub"
+  | Ub _ -> ub_leg
   | IllFormed -> "illformed"
   | Fuel -> "fuel"
 let legs l = join ("ok" :: l)
 let okz z = join [ "ok"; str_of_z z ]
 let zi = z_of_int
 
-(* floating-point legs (tested only; no Coq model): the C++ expressions re-evaluated on IEEE
-   doubles by OCaml.  Values are printed as the 64-bit pattern of the double. *)
-let fbits (x : float) = Printf.sprintf "%Lx" (Int64.bits_of_float x)
-let float_of_zz z = Big.to_float (big_of_z z)
 
 (* per (types) cache of the partially applied model / spec functions: the compile-time part of
    each operation (see "Staging" in Model.v) is evaluated once per pair of duration types *)
@@ -82,6 +80,7 @@ let run_case op t =
   | Some p ->
     let n1 = p.n1 and d1 = p.d1 and n2 = p.n2 and d2 = p.d2 and pok = p.pok in
     let wc = Z.max w1 w2 in
+    let op = if String.length op > 3 && String.sub op 0 3 = "ub_" then String.sub op 3 (String.length op - 3) else op in
     (match op with
      | "cast" | "tp_cast" ->
        let c = next_z t in
@@ -205,20 +204,16 @@ let run_case op t =
         legs (List.concat (List.map (fun ((_, n), d) -> [ str_of_z n; str_of_z d; "1"; "1" ]) typedefs_spec)))
      | "typedef_bits" ->
        (legs (List.map (fun ((w, _), _) -> str_of_z w) typedefs_m), "na")
-     (* ---- floating-point target representation: double mirror of duration_cast_impl (CR = double)
-        and of the converting constructor (same expression), tested only *)
+     (* ---- floating-point target representation (duration<double, P2> from an integer count):
+        model = extracted Flocq binary64 model (FModel.v), spec = the exact rational rounded once
+        (computable when numerator and denominator are below 2^53); legs print the 64-bit pattern *)
      | "fcast_if" | "fconv_if" ->
        let c = next_z t in
-       (match f p.cf with
-        | Val (cn, cd) ->
-          let x = float_of_zz c and fn = float_of_zz cn and fd = float_of_zz cd in
-          let one = zi 1 in
-          let v =
-            if op = "fconv_if" then x *. fn /. fd
-            else if Z.eqb cn one then (if Z.eqb cd one then x else x /. fd)
-            else if Z.eqb cd one then x *. fn else x *. fn /. fd in
-          (join [ "ok"; fbits v ], "na")
-        | _ -> ("illformed", "na"))
+       let m = (if op = "fcast_if" then fcast_m else fconv_m) p.a p.b c in
+       ((match m with
+           | Val r -> join [ "ok"; str_of_z (enc64 r) ]
+           | Ub _ -> "ub" | IllFormed -> "illformed" | Fuel -> "fuel"),
+        if pok && fspec_ok n1 d1 n2 d2 c then join [ "ok"; str_of_z (enc64 (fcast_spec n1 d1 n2 d2 c)) ] else "na")
      | _ -> raise Not_found)
 
 let () = main run_case
